@@ -8,11 +8,12 @@ from vlib.s3stub import Stub
 from checks.c02 import entries
 
 PID = "C18"
-LEAN_MODULE = "NunVerif.Props.C18Part"
+LEAN_MODULE = "NunVerif.Props.C18PartListing"
 THEOREMS = ["Nun.C18_finding_identity_not_stored", "Nun.C18_finding_failed_upload_is_silent", "Nun.C18_snapshot_ignores_reclaim", "Nun.C18_round_trip_witness",
             "Nun.C18_s3_roundtrip", "Nun.C18_s3_restores_what_disk_restores", "Nun.s3LoadLoop_encObjs", "Nun.C06_reclaim_roundtrip",
             "Nun.s3pLoadLoop_encPart", "Nun.s3pSnapPartition_step", "Nun.C18_part_snapshot_syncs", "Nun.C18_part_load_of_synced", "Nun.C18_part_roundtrip",
-            "Nun.PartInv_writeStep", "Nun.C18_part_inv_after_any_history", "Nun.PGood_fresh"]
+            "Nun.PartInv_writeStep", "Nun.C18_part_inv_after_any_history", "Nun.PGood_fresh",
+            "Nun.partNameOf_objKey", "Nun.listing_of_wf", "Nun.StoreWF_after_any_history", "Nun.C18_part_roundtrip_wf", "Nun.C18_part_restores_after_any_history", "Nun.partitionOf_bound"]
 
 SETUP = ["RESET", "SESS 1", "C 1 auth adm pw", "C 1 create-db t tok newer", "C 1 use-db t tok"]
 AFTER = ["SESS 1", "C 1 auth adm pw", "C 1 use-db t tok", "C 1 keys", "C 1 get-safe a", "C 1 get-safe b"]
@@ -276,7 +277,7 @@ def main(tier, seed):
                disagreements=len(disagreements), oracle_failures=len(failures), failure_classes={c: len([f for f in failures if f.cls == c]) for c in {f.cls for f in failures}},
                put_requests=sum(r.get("puts", 0) for r in results), notes=notes)
     core.write_evidence(PID, dict(property_id=PID, tier=tier, seed=seed, level="proof", coverage=cov,
-                                  assumptions=["the stub is S3-compatible for the three calls the code makes", "strategy s3_patition: modelled (Model/S3Part.lean, SipHash-1-3 placement executable, theorems for an arbitrary placement function); the answer of the listing call is a hypothesis of C18_part_load_of_synced; runs with injected faults are judged by the oracle only"], wall_s=round(time.time() - t0, 2), violations=len(violations)))
+                                  assumptions=["the stub is S3-compatible for the three calls the code makes", "strategy s3_patition: modelled (Model/S3Part.lean, SipHash-1-3 placement executable, theorems for an arbitrary placement function); the listing is assumed to return exactly the keys the store holds — that they name this database's partitions, and that the name parser reads back the partition the writer printed, is proved (Props/C18PartListing.lean); runs with injected faults are judged by the oracle only"], wall_s=round(time.time() - t0, 2), violations=len(violations)))
     for p, suffix in violations: print(f"VIOLATION property={PID} replay={p}{suffix}")
     log(f"[{PID}] {tier}: {len(results)} runs, {len(hashes)} distinct, {len(disagreements)} disagreements, {len(failures)} oracle failures ({cov['failure_classes']}), obligations {n_ok}/{n_ob}, {round(time.time() - t0, 1)}s")
     return 1 if violations else 0
